@@ -18,7 +18,8 @@ PROBE = "UDJUDDJUJDUUJDJDUJUDJJDU"
 
 
 def lookback(cfg):
-    """Generous look-back in candles: warm-up length measured on an untrimmed probe run, and every integer parameter, + 2."""
+    """Generous look-back in candles: warm-up length measured on an untrimmed probe run, and every integer parameter, + 1
+    (a purely recursive indicator without parameters, e.g. OBV, gets exactly the one predecessor the property names)."""
     ind = make(cfg, candles=fresh(raw_stream(PROBE)))
     ind.calculate()
     first = len(PROBE)
@@ -28,7 +29,7 @@ def lookback(cfg):
             first = i
             break
     params = [v for v in cfg["kw"].values() if isinstance(v, int) and not isinstance(v, bool)]
-    return max([first] + params) + 2
+    return max([first] + params) + 1
 
 
 PRE = ["UDJUDJDUJDUJ", "JUDDJUUDJJDU", "DJUJDUJUDUDJ"]
@@ -36,12 +37,14 @@ PRE = ["UDJUDJDUJDUJ", "JUDDJUUDJJDU", "DJUJDUJUDUDJ"]
 
 def spaces(tier):
     if tier == "quick":
-        return dict(sigma="UDJ", n=3, lifes=(2, 2.5, 3, 5, 8), tfs=(None, "T2"), horizon=3.0)
-    return dict(sigma="UDJ", n=5, lifes=(2, 2.5, 3, 4.75, 5, 8, 11), tfs=(None, "T2"), horizon=6.0)
+        return dict(sigma="UDJ", n=3, lifes=(0, 2, 2.5, 3, 5, 8), tfs=(None, "T2", "T2+fill"), horizon=3.0)
+    return dict(sigma="UDJ", n=5, lifes=(0, 2, 2.5, 3, 4.75, 5, 8, 11), tfs=(None, "T2", "T2+fill"), horizon=6.0)
 
 
 def explore(item):
     tier, label, tf, host = item
+    fill = bool(tf and tf.endswith("+fill"))
+    tf = tf.split("+")[0] if tf else tf
     bind_repo()
     from hexital import Hexital
     sp = spaces(tier)
@@ -54,9 +57,12 @@ def explore(item):
     for suffix in A.words(sp["sigma"], sp["n"]):
         word = pre + suffix
         n = len(word)
-        raw = raw_stream(word, "+" if tf else "b", ("h" if tf else "t") * (n - 1), tf)
+        gaps = ("h" if tf else "t") * (n - 1)
+        if fill:  # gaps of several buckets, some longer than the shorter lifespans
+            gaps = "".join("hh5h2hhxh3hh"[i % 12] for i in range(n - 1))
+        raw = raw_stream(word, "+" if tf else "b", gaps, tf)
         # untrimmed twin (batch)
-        kw = {"timeframe": tf} if tf else {}
+        kw = {"timeframe": tf, "timeframe_fill": fill} if tf else {}
         try:
             tw = make(cfg, candles=fresh(raw), **kw)
             tw.calculate()
@@ -67,10 +73,10 @@ def explore(item):
         for life in sp["lifes"]:
             lifesec = int(life * step)  # includes lifespans that are not a whole number of candles / buckets
             for comp in [pc + c for pc in ((len(pre),), (1,) * len(pre), (len(pre) - 2, 2)) for c in A.compositions(sp["n"])]:
-                case = {"cfg": label, "tf": tf, "host": host, "raw": raw, "life": lifesec, "comp": comp}
+                case = {"cfg": label, "tf": tf, "fill": fill, "host": host, "raw": raw, "life": lifesec, "comp": comp}
                 try:
                     with deadline(sp["horizon"]):
-                        res = run(cfg, kw, host, raw, lifesec, comp, L, tf)
+                        res = run(cfg, kw, host, raw, lifesec, comp, L, tf, fill)
                 except Horizon:
                     rep.violation(f"C15|horizon|{kind}", dict(case, oracle="horizon"))
                     continue
@@ -103,15 +109,15 @@ def explore(item):
     return rep
 
 
-def run(cfg, kw, host, raw, lifesec, comp, L, tf):
+def run(cfg, kw, host, raw, lifesec, comp, L, tf, fill=False):
     from hexital import Hexital
     life = timedelta(seconds=lifesec)
     if host == "ind":
         obj = make(cfg, candles_lifespan=life, **kw)
         ind = obj
     else:
-        ind = make(cfg, **kw)
-        obj = Hexital("h", [], [ind], candles_lifespan=life)
+        ind = make(cfg, **({"timeframe": tf} if tf else {}))
+        obj = Hexital("h", [], [ind], candles_lifespan=life, timeframe_fill=fill)
         ind = obj.indicator(ind.name)
     pos = 0
     eligible = True
@@ -120,6 +126,7 @@ def run(cfg, kw, host, raw, lifesec, comp, L, tf):
     dropped = False
     for k in comp:
         chunk = raw[pos:pos + k]
+        prev_last = R._secs(ind.candles[-1].timestamp.isoformat()) if ind.candles else None
         raised = None
         try:
             obj.append(fresh(chunk))
@@ -129,14 +136,20 @@ def run(cfg, kw, host, raw, lifesec, comp, L, tf):
         got = [c.timestamp.isoformat() for c in ind.candles]
         # oracle 1: exactly the reference window
         allc = R.collapse(raw[:pos], tfsec) if tf else list(raw[:pos])
+        if fill:
+            allc = R.fill(allc, tfsec)
         want = [c[5] for c in R.trim(allc, lifesec)]
         if got != want and window_bad is None:
             window_bad = {"after": pos, "got": got, "want": want}
         if len(want) < len(allc):
             dropped = True
         # eligibility: first (re)computed candle of this append keeps L retained predecessors, or nothing was ever trimmed
+        # every candle created or recomputed by this append: the previous last candle (it may have been merged into) and
+        # everything after it, fill candles included
         t_new = R._secs(chunk[0][5])
         b = -((-t_new) // tfsec) * tfsec if tf else t_new
+        if prev_last is not None:
+            b = min(b, prev_last if tf else prev_last + 1)
         j0 = next((j for j, t in enumerate(got) if R._secs(t) >= b), len(got))
         if dropped and j0 < L:
             eligible = False
@@ -151,12 +164,12 @@ def replay(case):
     cfg = BY_LABEL[case["cfg"]]
     raw = [tuple(r) for r in case["raw"]]
     tf = case["tf"]
-    kw = {"timeframe": tf} if tf else {}
+    kw = {"timeframe": tf, "timeframe_fill": case.get("fill", False)} if tf else {}
     if case["oracle"] == "horizon":
         return True
     L = lookback(cfg)
     try:
-        window_bad, eligible, final = run(cfg, kw, case["host"], raw, case["life"], tuple(case["comp"]), L, tf)
+        window_bad, eligible, final = run(cfg, kw, case["host"], raw, case["life"], tuple(case["comp"]), L, tf, case.get("fill", False))
     except Exception:
         return True
     if case["oracle"] == "window":
@@ -177,6 +190,7 @@ def main(prop, tier):
         for tf in sp["tfs"]:
             items.append((tier, cfg["label"], tf, "ind"))
         items.append((tier, cfg["label"], None, "hex"))
+        items.append((tier, cfg["label"], "T2+fill", "hex"))
     rep = merge_all(pmap(explore, items))
     rule = ("every word over sigma^n x lifespan x {base, T2} x every composition into appends (chunks larger than the window included) x every "
             "indicator config x host {Indicator, Hexital}: retained timestamps compared with the reference window after every append "
@@ -184,4 +198,4 @@ def main(prop, tier):
             "rounded-up look-back, or nothing had been trimmed yet); non-trivial = distinct eligible case in which candles were actually trimmed "
             "and the comparison ran")
     return finish(prop, tier, rep, t0, rule=rule, bounds=dict(sp, configs=len(ALL), variant=A.variant()), replay_confirm=replay,
-                  assumptions=["look-back per config = max(measured warm-up index, every integer parameter) + 2 candles (generous: can only shrink the checked set)"])
+                  assumptions=["look-back per config = max(measured warm-up index, every integer parameter) + 1 candles (generous: can only shrink the checked set)"])
